@@ -73,13 +73,15 @@ let split_on c s = if s = "-" || s = "" then [] else String.split_on_char c s
 let layers s = List.map hexb (split_on ',' s)
 let ids = layers
 
+(* a BTC header as the checks see it: nBits, hash as a number, hash and previous-hash bytes; the PoW verdict is
+   COMPUTED by the model (pow_btc: compact decoding, sign/overflow/zero, target <= pow limit, hash <= target) *)
 type bblock = { bpow : bool; bhash : z list; bprev : z list }
-let btc_ctx s : bblock list =
+let btc_ctx limit s : bblock list =
   if String.length s > 0 && s.[0] = '#' then
     (* only the number of blocks matters (context-too-many): n copies of an invalid block *)
     List.init (int_of_string (String.sub s 1 (String.length s - 1))) (fun _ -> { bpow = false; bhash = []; bprev = [] })
   else List.map (fun b -> match String.split_on_char ':' b with
-    | [p; h; pr] -> { bpow = (p = "1"); bhash = hexb h; bprev = hexb pr }
+    | [bits; hn; h; pr] -> { bpow = pow_btc limit (z_of_hex bits) (z_of_hex hn); bhash = hexb h; bprev = hexb pr }
     | _ -> failwith "bad ctx block") (split_on ';' s)
 
 let vertab : (string, bool) Hashtbl.t = Hashtbl.create 16
@@ -93,7 +95,7 @@ let vmpath h pre = { vp_subject = hexb (get h (pre ^ "vs")); vp_treeIndex = zdec
                      vp_index = zdec (get h (pre ^ "vi")); vp_layers = layers (get h (pre ^ "vl")) }
 let poptx h pre =
   Hashtbl.replace vertab (get h (pre ^ "hash")) (get h (pre ^ "ver") = "1");
-  { p_network = net (get h (pre ^ "net")); p_context = btc_ctx (get h (pre ^ "ctx"));
+  { p_network = net (get h (pre ^ "net")); p_context = btc_ctx (z_of_hex (get h (pre ^ "limit"))) (get h (pre ^ "ctx"));
     p_pubbytes = hexb (get h (pre ^ "pub")); p_btctx = hexb (get h (pre ^ "btctx"));
     p_btctx_hash = hexb (get h (pre ^ "btchash"));
     p_path = { mp_subject = hexb (get h (pre ^ "mps")); mp_index = zdec (get h (pre ^ "mpi")); mp_layers = layers (get h (pre ^ "mpl")) };
@@ -118,11 +120,24 @@ let run_vbktx h pre = check_vbk_tx verify_o addr_from_pubkey_o addr_checksum_o c
 let run_atv h pre = full_check_atv sha256 verify_o addr_from_pubkey_o addr_checksum_o ctxinfo_root_o check_block_header_o
                         (net (get h (pre ^ "magic"))) (zdec (get h (pre ^ "altid"))) (atv h pre)
 
+(* a VBK header: plausibility and PoW verdicts are COMPUTED by the model from height, timestamp, difficulty bits, the
+   hash number and the chain parameters *)
 type vblock = { vplaus : bool; vpow : bool; vheight : z; vtrim : z list; vprev : z list }
-let vblocks s = List.map (fun b -> match String.split_on_char ':' b with
-    | [p; w] -> { vplaus = (p = "1"); vpow = (w = "1"); vheight = Z0; vtrim = []; vprev = [] }
-    | [p; w; hgt; t; pr] -> { vplaus = (p = "1"); vpow = (w = "1"); vheight = zdec hgt; vtrim = hexb t; vprev = hexb pr }
+let vblocks h s =
+  let fork = zdec (get h "fork") and start = z_of_hex (get h "start") and btime = z_of_hex (get h "btime")
+  and en = (get h "en" = "1") and mind = z_of_hex (get h "mind") in
+  let mk hgt ts bits hn t pr =
+    { vplaus = (int_of_z (vbk_plausibility fork start btime en (zdec hgt) (z_of_hex ts)) = 0);
+      vpow = pow_vbk vbk_max_difficulty mind (z_of_hex bits) (z_of_hex hn);
+      vheight = zdec hgt; vtrim = hexb t; vprev = hexb pr } in
+  List.map (fun b -> match String.split_on_char ':' b with
+    | [hgt; ts; bits; hn] -> mk hgt ts bits hn "-" "-"
+    | [hgt; ts; bits; hn; t; pr] -> mk hgt ts bits hn t pr
     | _ -> failwith "bad vbk block") (split_on ';' s)
+let plaus_code h s = match String.split_on_char ':' s with
+  | hgt :: ts :: _ -> int_of_z (vbk_plausibility (zdec (get h "fork")) (z_of_hex (get h "start")) (z_of_hex (get h "btime"))
+                                  (get h "en" = "1") (zdec hgt) (z_of_hex ts))
+  | _ -> failwith "bad vbk block"
 
 let handle op args = match op, args with
   | ("embed" | "embedh"), [data; tx] -> code (check_embedding (hexb data) (hexb tx))
@@ -137,11 +152,15 @@ let handle op args = match op, args with
   | "atv", _ -> res_s (run_atv (facts args) "")
   | "vbkblock", _ ->
     let h = facts args in
-    let r = check_vbk_block (fun (p, _) -> p) (fun (_, w) -> w) (get h "plaus" = "1", get h "pow" = "1") in
-    if int_of_z r = 0 then "1" else Printf.sprintf "0 %d 0" (int_of_z r)
+    let b = List.hd (vblocks h (get h "blocks")) in
+    let r = check_vbk_block (fun b -> b.vplaus) (fun b -> b.vpow) b in
+    if int_of_z r = 0 then "1" else Printf.sprintf "0 %d %d" (int_of_z r) (plaus_code h (get h "blocks"))
+  | "btcblock", _ ->
+    let h = facts args in
+    if pow_btc (z_of_hex (get h "limit")) (z_of_hex (get h "bits")) (z_of_hex (get h "hash")) then "1" else "0 1 0"
   | "vbkblocks", _ ->
     let h = facts args in
-    let r = check_vbk_blocks (fun b -> b.vheight) (fun b -> b.vtrim) (fun b -> b.vprev) (fun b -> b.vplaus) (fun b -> b.vpow) (vblocks (get h "blocks")) in
+    let r = check_vbk_blocks (fun b -> b.vheight) (fun b -> b.vtrim) (fun b -> b.vprev) (fun b -> b.vplaus) (fun b -> b.vpow) (vblocks h (get h "blocks")) in
     if int_of_z r = 0 then "1" else Printf.sprintf "0 %d 0" (int_of_z r)
   | "popdata", _ ->
     let h = facts args in
@@ -150,7 +169,7 @@ let handle op args = match op, args with
     let ats = List.init na (fun i -> atv h (Printf.sprintf "a%d." i)) in
     let magic = if nv > 0 then net (get h "v0.magic") else if na > 0 then net (get h "a0.magic") else None in
     let altid = if na > 0 then zdec (get h "a0.altid") else Z0 in
-    let d = { d_estimate = zdec (get h "est"); d_context = vblocks (get h "blocks"); d_vtbs = vs; d_atvs = ats;
+    let d = { d_estimate = zdec (get h "est"); d_context = vblocks h (get h "blocks"); d_vtbs = vs; d_atvs = ats;
               d_context_ids = ids (get h "cids"); d_vtb_ids = ids (get h "vids"); d_atv_ids = ids (get h "aids") } in
     let st0 = ((List.init nv (fun _ -> false), List.init na (fun _ -> false)), false) in
     let (r, ((fv, fa), c)) =
